@@ -5,6 +5,7 @@
 #define VERIF_REPLACE_NEW
 #endif
 #include "seq_common.h"
+#include <climits>
 
 #include <eventpp/hetereventdispatcher.h>
 #include <eventpp/utilities/scopedremover.h>
@@ -732,7 +733,7 @@ static void genC16(sim::Rng & rng, sim::Plan & plan, int len)
 		if(!known.empty()) slot = known[rng.below((uint32_t)known.size())];
 		const int how = (int)rng.below(3);
 		const int retrig = rng.chance(1, 4) ? 8 : 0;
-		if(q < 16 && nextCb < MAXSLOT - 4) { const int n = (int)rng.below(9) - 3; ops.push_back(Op(O_C_ADD, nextCb, n, how | retrig | (slot << 8), d)); known.push_back(nextCb++); }
+		if(q < 16 && nextCb < MAXSLOT - 4) { const uint32_t xr = rng.below(40); const int n = xr == 0 ? INT_MIN : xr == 1 ? INT_MIN + 1 : xr == 2 ? INT_MAX : (int)rng.below(9) - 3; ops.push_back(Op(O_C_ADD, nextCb, n, how | retrig | (slot << 8), d)); known.push_back(nextCb++); }
 		else if(q < 30 && nextCb < MAXSLOT - 4) { const int pattern = (int)rng.below(256); const int takesArg = rng.chance(1, 2) ? 4 : 0; ops.push_back(Op(O_X_ADD, nextCb, pattern, how | takesArg | retrig | (slot << 8), d)); known.push_back(nextCb++); }
 		else if(q < 40 && nextCb < MAXSLOT - 4) { ops.push_back(Op(O_P_ADD, nextCb, 0, how | retrig | (slot << 8), d)); known.push_back(nextCb++); }
 		else if(q < 47) ops.push_back(Op(O_D_REMOVE, 0, slot, 0, d));
